@@ -751,7 +751,7 @@ def smembers := sread (fun st => .slist (DsSet.members st)) (.slist [])
 def sismember (s : MState) (now : Int) (key m : Bytes) := sread (fun st => .bool (DsSet.mem st m)) (.bool false) s now key
 def sscan (s : MState) (now : Int) (key : Bytes) (cursor : Int) (pat : Bytes) (count : Int) :=
   sread (fun st => let (c, ks) := DsSet.sscan st cursor pat count
-                   .many [.int c, .slist (ks.getD [])]) (.many [.int 0, .slist []]) s now key
+                   .many [.int c, .slist ks]) (.many [.int 0, .slist []]) s now key
 
 /-- read several keys in order, under one exec; each `none` = not ok -/
 def readMany (s : MState) (now : Int) (keys : List Bytes) : MState × List (Option (Option (AList Unit))) :=
@@ -1043,9 +1043,8 @@ def zmax := zread (fun z => match z.sl.getLast? with | some it => .item (some it
 def zmin := zread (fun z => match z.sl.head? with | some it => .item (some it) | none => .panic) (.item none)
 
 def zscan (s : MState) (now : Int) (key : Bytes) (cursor : Int) (pat : Bytes) (count : Int) :=
-  zread (fun z => match DsZSet.zScan z cursor pat count with
-    | some (c, items) => .many [.int c, .ilist (items.map some)]
-    | none => .panic) (.many [.int 0, .ilist []]) s now key
+  zread (fun z => let (c, items) := DsZSet.zScan z cursor pat count
+    .many [.int c, .ilist (items.map some)]) (.many [.int 0, .ilist []]) s now key
 
 /-- accumulate one (member, score) of one operand into the result map of ZUnion / ZInter:
     the weighted score is added to / min'ed / max'ed with what is there -/
@@ -1144,7 +1143,8 @@ def zinter (s : MState) (now : Int) (keys : List Bytes) (weights : List F64) (ag
 def zstore (union : Bool) (s : MState) (now : Int) (dst : Bytes) (keys : List Bytes) (weights : List F64) (agg : Bytes) : R :=
   let core := if union then zunionCore else zinterCore
   let step (s : MState) (items : List Item) : R :=
-    if items.isEmpty then (delKey s dst, .int 0) else      -- an empty result: the destination ceases to exist
+    -- an empty result: the destination ceases to exist (watchers and the feed are told)
+    if items.isEmpty then (emit { delKey s dst with signalled := dst :: s.signalled } { typ := 2, key := dst }, .int 0) else
     -- the destination is replaced whatever it held, not merged
     let z' := items.foldl (fun z it => (DsZSet.zAdd z it.2 it.1).1) DsZSet.empty
     -- meta.setValue(result): a new value object (the old one may live on in the in-memory backend)
